@@ -177,7 +177,7 @@ func genTypedProbe(r *RNG, d *EnvData) string {
 		return fmt.Sprint(i)
 	}
 	in := r.Pick([]string{"in", "not in"})
-	switch r.Intn(14) {
+	switch r.Intn(17) {
 	case 0: // membership in a literal range, boundaries at the operand's value
 		a := near()
 		b := a + r.Range(-1, 3)
@@ -215,6 +215,12 @@ func genTypedProbe(r *RNG, d *EnvData) string {
 			return r.Pick([]string{"len(1..1000000)", "A in 1..10000000", "[len(1..600000), len(1..600000)]", "len(1..999999)", "len(0..999998)"})
 		}
 		return fmt.Sprintf("len(%d..%d)", r.Range(-2, 2), r.Range(3, 40))
+	case 13: // literal arithmetic in an int64 parameter position (only + - * / and unary -/+ retype literals)
+		return fmt.Sprintf("C64(%d %s %d)", r.Range(1, 200), r.Pick([]string{"%", "%", "/", "*", "-"}), r.Range(1, 9))
+	case 14: // signed zeros and other float literals that differ only by sign or spelling
+		return r.Pick([]string{"1/0.0 == 1/-0.0", "[0.0, -0.0]", "F64/0.0 + F64/-0.0", "[1/0.0, 1/-0.0]", "-0.0 == 0.0", "[-1.5, 1.5, -(1.5)]", "[0.5, .5, 5e-1]"})
+	case 15: // a struct field shadowing an embedded field of another type
+		return fmt.Sprintf("Lvl %s %s", in, r.Pick([]string{"[1, 2, 3]", "1..3", "[0, 1]", "0..0"}))
 	case 10: // a ConstExpr function returning a named integer type through interface{}
 		return fmt.Sprintf("CL(%d) %s", r.Range(0, 3), r.Pick([]string{"== 1", "== 0", "in 0..2", "in [0, 1]", "not in 1..3", "!= 2"}))
 	default: // ConstExpr float function with folded arguments under a comparison
